@@ -237,17 +237,33 @@ def run(ctx):
         from tools import battle as battle_
         import random as random_
         bb, vs_ = battle_.build_wows('13_2_0', random_.Random(3)); good = bb.stream()
+        # ONE path is rewritten with a different container each time (a result cached per path would be stale), every container carries
+        # its own marker in the open info and an extra block, and the objects a parse returned are scribbled over afterwards (a later parse
+        # must not see that)
+        pth = os.path.join(tmp, 'dump.wowsreplay')
         for name, stream in (('empty', b''), ('garbage', bytes(ctx.rng.randrange(256) for _ in range(301))), ('cut-in-packet', good[:len(good) // 2 + 5]), ('playable', good)):
             for strict in (False, True):
-                pth = os.path.join(tmp, 'dump-%s.wowsreplay' % name); dmp = os.path.join(tmp, 'dump-%s-%d.bin' % (name, strict))
-                battle_.write_replay(pth, 'wowsreplay', {'clientVersionFromXml': vs_}, stream)
-                try: RP(pth, strict=strict, raw_data_output=dmp).get_info()
+                dmp = os.path.join(tmp, 'dump-%s-%d.bin' % (name, strict))
+                engine = {'clientVersionFromXml': vs_, 'marker': '%s-%d' % (name, strict)}; extra = [{'blk': name, 'strict': strict}]
+                co = zlib.compressobj(6); z = co.compress(stream) + co.flush(); z += bytes((-len(z)) % 8)
+                model_write('wowsreplay', pth, json.dumps(engine).encode(), [json.dumps(e).encode() for e in extra], struct.pack('<II', len(stream), len(z)), z)
+                info = None
+                try: info = RP(pth, strict=strict, raw_data_output=dmp).get_info()
                 except Exception: pass
                 ctx.case(('raw-dump', name, strict))
                 got_dump = open(dmp, 'rb').read() if os.path.exists(dmp) else None
                 if got_dump != stream:
                     ctx.violation(dict(kind='raw-dump', stream_kind=name, strict=strict, stream=stream[:400].hex(), dump=(got_dump[:200].hex() if got_dump is not None else 'no file written'),
-                                       how='a well-formed 13.2.0 container around that stream; ReplayParser(path, strict, raw_data_output=f).get_info(); f must hold the stream'))
+                                       how='a well-formed 13.2.0 container around that stream, written to a path that held another container before; ReplayParser(path, strict, raw_data_output=f).get_info(); f must hold the stream'))
+                if info is not None:
+                    if info.get('open') != engine or info.get('extra_data') != extra:
+                        ctx.violation(dict(kind='parser-blocks', stream_kind=name, strict=strict, expected_open=engine, got_open=json.loads(json.dumps(info.get('open'), default=str)),
+                                           expected_extra=extra, got_extra=json.loads(json.dumps(info.get('extra_data'), default=str)),
+                                           how='containers written one after the other to the SAME path, each parsed with a new ReplayParser in one process (and the dicts a parse returned edited afterwards): get_info() must return the blocks of the file that is there now'))
+                    try:
+                        info['open']['marker'] = 'scribbled'; info['open']['clientVersionFromXml'] = '0,0,0,0'
+                        if isinstance(info.get('extra_data'), list): info['extra_data'].append('scribbled')
+                    except Exception: pass
         # ... and on a real recording
         small = [f for f in recordings.list_recordings() if os.path.getsize(f) < 30000][0]
         from replay_parser import ReplayParser
